@@ -100,6 +100,20 @@ struct BD_ : state_machine_def<BD_> {
   template<class F,class Ev> void no_transition(Ev const&,F&,int){ g_log += "NT "; }
 };
 typedef BE<BD_> BD;
+// a bounded drain whose last dispatched event submits a burst of events (the pool's container grows while the scan holds an iterator):
+// nothing is lost, duplicated or destroyed twice, the burst is dispatched afterwards in submission order (C20 "no library operation reads
+// freed ... memory", C04)
+struct burst {}; struct tk { int n; std::vector<int> pad; tk(int n_=0) : n(n_), pad(8, n_) {} };
+static int g_tk_next = 0, g_tk_bad = 0;
+struct BU_ : state_machine_def<BU_> {
+  struct S : state<> {};
+  struct Many { template<class E,class F,class A,class B> void operator()(E const&,F& f,A&,B&){ for (int i = 0; i < 100; ++i) f.process_event(tk(i)); } };
+  struct Cnt { template<class F,class A,class B> void operator()(tk const& e,F&,A&,B&){ if (e.n != g_tk_next || e.pad.size() != 8 || e.pad[7] != e.n) ++g_tk_bad; ++g_tk_next; } };
+  typedef S initial_state;
+  struct transition_table : mpl::vector< Row<S,burst,none,Many,none>, Row<S,tk,none,Cnt,none> > {};
+  template<class F,class Ev> void no_transition(Ev const&,F&,int){ g_log += "NT "; }
+};
+typedef BE<BU_> BU;
 #endif
 // exception_caught submits an event while the failing step already queued another one (C04: "from exception_caught"): both must wait
 // until the step is over and keep their submission order
@@ -184,6 +198,8 @@ int main(int argc, char** argv) {
     report("circular-queue.event-under-dispatch-stays-alive", g_log == "tick1 tick2 tick3 " && alive == 0, "C20,C04", "log=[" + g_log + "] live-events-after-destruction=" + std::to_string(alive)); }
 #endif
 #if IS_MP11
+  { BU m; m.start(); g_tk_next = 0; g_tk_bad = 0; m.enqueue_event(burst()); const size_t n1 = m.process_event_pool(1); const size_t n2 = m.process_event_pool();
+    report("bounded-drain.last-event-submits-a-burst", n1 == 1 && n2 == 100 && g_tk_next == 100 && g_tk_bad == 0, "C20,C04", "first=" + std::to_string(n1) + " rest=" + std::to_string(n2) + " dispatched=" + std::to_string(g_tk_next) + " corrupted=" + std::to_string(g_tk_bad)); }
   { BD m; m.start(); m.enqueue_event(xev(1)); m.enqueue_event(aev(2)); m.enqueue_event(go()); m.enqueue_event(aev(3));
     std::string steps; size_t total = 0;
     for (int k = 0; k < 4; ++k) { g_log.clear(); size_t n = m.process_event_pool(1); total += n; steps += "[" + g_log + "]"; }
